@@ -230,8 +230,16 @@ def mutate_text(g, b):
     """a text different from b, by one small edit; returns (new, tag)"""
     r = g.r
     for _ in range(20):
-        k = r.randrange(9)
+        k = r.randrange(10)
         ls = b.split(b'\n')
+        if k == 9:
+            cand = [i for i, l in enumerate(ls) if l.strip(b' \t') == b'---']
+            if not cand:
+                continue
+            i = r.choice(cand)
+            new = r.choice([b'--- ', b' ---', b'---\t']) if ls[i] == b'---' else b'---'
+            return b'\n'.join(ls[:i] + [new] + ls[i + 1:]), 'pad-terminator-line'
+
         if k == 0:
             n, tag = b + b'\n', 'add-trailing-nl'
         elif k == 1 and b.endswith(b'\n'):
